@@ -128,3 +128,152 @@ Example C02_live_nonvacuous :
   nth_error tr 103 = Some (0%nat, ev_slot (GI 0 0) 0) /\
   filter (fun e => is_cli "dispose" (snd e)) (firstn 127 tr) = [].
 Proof. vm_compute. repeat split; reflexivity. Qed.
+
+(** ---- appended (helper of d1-hpleft, piece "scan_frees_older"): proofs in LV.Proofs.DhpLiveGs* ---- *)
+From LV Require Import Proofs.DhpLiveGsA.
+
+(** (c'), free-list-unconditional: [C02_guarded_ptr_live_cell] without the hypothesis on the embedded free lists
+    ([dhp_flbad_false] is a theorem), under the faithful configuration of the current code (block capacity >= 4,
+    [c_old = false], [c_oldtail = false]) and fewer than 2^31 - 3 threads. *)
+Theorem C02_guarded_ptr_live_cell_fl : forall fuel c ths conf,
+  Conc.reach (Dhp.init_cfg fuel c ths) conf ->
+  (4 <= c_RB c)%nat -> c_old c = false -> c_oldtail c = false ->
+  (Z.of_nat (List.length ths) + 3 < 2147483648)%Z ->
+  scan_frees_older (Conc.trace conf) ->
+  forall p, p <> 0%nat -> publish_once (Conc.trace conf) p -> retire_after_unlink (Conc.trace conf) p ->
+  forall v t j k, nth_error (Conc.trace conf) v = Some (t, EvCli "ret" [zn p]) ->
+    lop (sfold (firstn v (Conc.trace conf))) t = [7%Z; zn j; zn k] ->
+  forall g0 s x, lsl (sfold (firstn v (Conc.trace conf))) t = Some (g0, s, x) ->
+  forall d u kl, (v < d)%nat -> nth_error (Conc.trace conf) d = Some (u, ev_dispose p) ->
+    live c (hist (firstn d (Conc.trace conf))) s kl -> (kl < g0)%nat ->
+    (forall i te, (g0 < i < d)%nat -> nth_error (Conc.trace conf) i = Some te -> ~ is_slot_of s (snd te)) ->
+  False.
+Proof. exact dhp_guarded_ptr_live_cell_noflb. Qed.
+Print Assumptions C02_guarded_ptr_live_cell_fl.
+
+(** non-vacuity: the configuration of [C02_live_example] (RB = 4, c_old = c_oldtail = false, two threads) satisfies the
+    side conditions *)
+Example C02_live_fl_nonvacuous :
+  let c := Dhp.mkCfg 4 2 4 false 200 2 false in
+  (4 <= c_RB c)%nat /\ c_old c = false /\ c_oldtail c = false.
+Proof. vm_compute. repeat split; lia. Qed.
+
+(** ---- "a scan frees only what was retired before it began": PROVED (LV.Proofs.DhpLiveGsB .. GsG) ---- *)
+From LV Require Proofs.DhpInvB.
+From LV Require Import Proofs.DhpLiveGsG.
+
+(** [C02_scan_frees_older_statement] holds: for every schedule, every number of threads (< 2^31 - 3) and every client
+    program that retires every object at most once, in the faithful configuration of the current code, a disposer call
+    for p made by thread u inside the scan that began at trace index s0 comes after an "op 9 p" event at an index < s0.
+    (Invariant: the C03 ownership invariant of the retired arrays paired with "while u is between _scanb and _scane,
+    every pointer whose place is in flight in u / the array of a record owned by u was announced before s0".) *)
+Theorem C02_scan_frees_older : forall fuel c ths conf,
+  Conc.reach (Dhp.init_cfg fuel c ths) conf ->
+  (4 <= c_RB c)%nat -> c_old c = false -> c_oldtail c = false ->
+  (Z.of_nat (List.length ths) + 3 < 2147483648)%Z ->
+  NoDup (flat_map (fun e => DhpInvB.retired_ev (snd e)) (Conc.trace conf)) ->
+  scan_frees_older (Conc.trace conf).
+Proof. exact dhp_scan_frees_older. Qed.
+Print Assumptions C02_scan_frees_older.
+
+(** the open statement of LV.Proofs.DhpLiveF, literally *)
+Theorem C02_scan_frees_older_statement_holds : C02_scan_frees_older_statement.
+Proof. exact dhp_scan_frees_older_flb. Qed.
+Print Assumptions C02_scan_frees_older_statement_holds.
+
+(** (c''): [C02_guarded_ptr_live_cell] with NO unproved hypothesis: neither on the free lists nor [scan_frees_older].
+    Client discipline: publish p once, retire p only after a store replaced it in its source, retire every object at
+    most once. *)
+Theorem C02_guarded_ptr_live_cell_unconditional : forall fuel c ths conf,
+  Conc.reach (Dhp.init_cfg fuel c ths) conf ->
+  (4 <= c_RB c)%nat -> c_old c = false -> c_oldtail c = false ->
+  (Z.of_nat (List.length ths) + 3 < 2147483648)%Z ->
+  NoDup (flat_map (fun e => DhpInvB.retired_ev (snd e)) (Conc.trace conf)) ->
+  forall p, p <> 0%nat -> publish_once (Conc.trace conf) p -> retire_after_unlink (Conc.trace conf) p ->
+  forall v t j k, nth_error (Conc.trace conf) v = Some (t, EvCli "ret" [zn p]) ->
+    lop (sfold (firstn v (Conc.trace conf))) t = [7%Z; zn j; zn k] ->
+  forall g0 s x, lsl (sfold (firstn v (Conc.trace conf))) t = Some (g0, s, x) ->
+  forall d u kl, (v < d)%nat -> nth_error (Conc.trace conf) d = Some (u, ev_dispose p) ->
+    live c (hist (firstn d (Conc.trace conf))) s kl -> (kl < g0)%nat ->
+    (forall i te, (g0 < i < d)%nat -> nth_error (Conc.trace conf) i = Some te -> ~ is_slot_of s (snd te)) ->
+  False.
+Proof. exact dhp_guarded_ptr_live_cell_unconditional. Qed.
+Print Assumptions C02_guarded_ptr_live_cell_unconditional.
+
+(** non-vacuity, on the run of [C02_live_example]: object 5 is the only one retired ("op 9 5" at event 59); the scan of
+    thread 1 that begins at event 113 hands it to the disposer at event 127; 59 < 113.  (The first scan of thread 1,
+    events 64..91, does not free it: thread 0 still guards it.) *)
+Example C02_scan_frees_older_nonvacuous :
+  let tr := fst C02_live_example in
+  flat_map (fun e => DhpInvB.retired_ev (snd e)) tr = [5%nat] /\
+  nth_error tr 59 = Some (1%nat, EvCli "op" [9; 5]%Z) /\
+  scan (hist (firstn 127 tr)) 1 = Some 113%nat /\
+  nth_error tr 127 = Some (1%nat, ev_dispose 5) /\
+  scan (hist (firstn 59 tr)) 1 = None.
+Proof. vm_compute. repeat split; reflexivity. Qed.
+
+
+(** ---- appended: from the hazard cell to the client's Guard (LV.Proofs.DhpLiveGcRefute, DhpLiveGcE) ---- *)
+From LV Require Import Proofs.DhpLiveGcRefute Proofs.DhpLiveGcE.
+
+(** [dhp_guard_cell_exclusive_statement], read literally, is FALSE of the model: with c_GB = 0 (an extension block
+    without cells; 16 in /repo) the fifth Guard of a thread gets a non-existent cell and protect() stores into nothing.
+    The corrected statement [dhp_guard_cell_exclusive_corrected_statement] assumes 1 <= c_GB. *)
+Theorem C02_guard_cell_exclusive_statement_refuted : ~ dhp_guard_cell_exclusive_statement.
+Proof. exact dhp_guard_cell_exclusive_statement_refuted. Qed.
+Print Assumptions C02_guard_cell_exclusive_statement_refuted.
+
+Definition C02_guard_cell_exclusive_corrected_statement : Prop := dhp_guard_cell_exclusive_corrected_statement.
+
+(** the second sentence at the level of the client's Guard object, GIVEN [scan_frees_older] and
+    [guard_cell_exclusive] for the trace (the cell protect() stored into stays a cell of the thread's attached record and
+    nobody stores to it until the thread starts detach / ~Guard / assign / clear / protect on that Guard): a pointer
+    returned by protect( Guard j ) is not handed to the disposer before the thread starts such an operation. *)
+Theorem C02_guarded_ptr_live_from_exclusive : forall fuel c ths conf,
+  Conc.reach (Dhp.init_cfg fuel c ths) conf -> flbad (hist (Conc.trace conf)) = false ->
+  scan_frees_older (Conc.trace conf) -> guard_cell_exclusive c (Conc.trace conf) ->
+  forall p, p <> 0%nat -> publish_once (Conc.trace conf) p -> retire_after_unlink (Conc.trace conf) p ->
+  forall v t j k, nth_error (Conc.trace conf) v = Some (t, EvCli "ret" [zn p]) ->
+    lop (sfold (firstn v (Conc.trace conf))) t = [7%Z; zn j; zn k] ->
+  forall d u, (v < d)%nat -> nth_error (Conc.trace conf) d = Some (u, ev_dispose p) ->
+  exists i e, (v < i < d)%nat /\ nth_error (Conc.trace conf) i = Some (t, e) /\ releasesD j e.
+Proof. exact dhp_guarded_ptr_live_from_exclusive. Qed.
+Print Assumptions C02_guarded_ptr_live_from_exclusive.
+
+(** non-vacuity: in [C02_live_example] thread 0's protect( Guard 0, source 0 ) returns 5 at event 47, 5 is disposed at
+    event 127, and the releasing operation the theorem promises is the clear( Guard 0 ) announced at event 100 *)
+Example C02_guarded_ptr_live_from_exclusive_nonvacuous :
+  let tr := fst C02_live_example in
+  nth_error tr 47 = Some (0%nat, EvCli "ret" [5%Z]) /\ lop (sfold (firstn 47 tr)) 0 = [7; 0; 0]%Z /\
+  nth_error tr 127 = Some (1%nat, ev_dispose 5) /\
+  nth_error tr 100 = Some (0%nat, EvCli "op" [6; 0]%Z) /\ releasesD 0 (EvCli "op" [6; 0]%Z).
+Proof.
+  cbv zeta. repeat (split; [vm_compute; reflexivity|]). right.
+  split; [right; right; left; reflexivity|reflexivity].
+Qed.
+
+(** ---- the client-level sentence, what is proved (LV.Proofs.DhpLiveGz) ---- *)
+From LV Require Import Proofs.DhpLiveGz.
+
+(** [C02_guarded_ptr_live_statement] with NO hypothesis on the free lists and NO hypothesis [scan_frees_older] (both are
+    theorems now), for every schedule, every number of threads (< 2^31 - 3) and every client program in the faithful
+    configuration of the current code -- GIVEN [guard_cell_exclusive] for the trace, which is what remains open
+    ([C02_guard_cell_exclusive_corrected_statement]).  Client discipline as in [C01_guarded_ptr_live]: publish p once,
+    retire every object at most once, retire p only after a store replaced it in its source. *)
+Definition C02_dhp_guarded_ptr_live_partial_statement : Prop := forall fuel c ths conf,
+  Conc.reach (Dhp.init_cfg fuel c ths) conf ->
+  (4 <= c_RB c)%nat -> c_old c = false -> c_oldtail c = false ->
+  (Z.of_nat (List.length ths) + 3 < 2147483648)%Z ->
+  NoDup (flat_map (fun e => DhpInvB.retired_ev (snd e)) (Conc.trace conf)) ->
+  guard_cell_exclusive c (Conc.trace conf) ->
+  forall p, p <> 0%nat -> publish_once (Conc.trace conf) p -> retire_after_unlink (Conc.trace conf) p ->
+  forall v t j k, nth_error (Conc.trace conf) v = Some (t, EvCli "ret" [zn p]) ->
+    lop (sfold (firstn v (Conc.trace conf))) t = [7%Z; zn j; zn k] ->
+  forall d u, (v < d)%nat -> nth_error (Conc.trace conf) d = Some (u, ev_dispose p) ->
+  exists i e, (v < i < d)%nat /\ nth_error (Conc.trace conf) i = Some (t, e) /\ releasesD j e.
+Theorem C02_dhp_guarded_ptr_live_partial : C02_dhp_guarded_ptr_live_partial_statement.
+Proof. exact dhp_guarded_ptr_live_partial. Qed.
+Print Assumptions C02_dhp_guarded_ptr_live_partial.
+(** non-vacuity: [C02_guarded_ptr_live_from_exclusive_nonvacuous], [C02_live_fl_nonvacuous] and
+    [C02_scan_frees_older_nonvacuous] above (the run [C02_live_example] satisfies the side conditions; "ret 5" at 47,
+    dispose at 127, the releasing clear( Guard 0 ) announced at event 100). *)
